@@ -49,6 +49,7 @@ impl World for W6 {
             ignore_path_and_query_case: rng.chance(1, 3),
             always_match_any_host: rng.coin(),
             ignore_marketing_query_params: rng.coin(),
+            marketing_list: crate::w1::Cfg::gen_marketing_list(rng),
         };
         let mut swarm = Swarm::new(rng);
         swarm.markers = true;
